@@ -20,7 +20,9 @@ from . import common
 
 _real = {n: getattr(os, n) for n in ('stat', 'lstat', 'access', 'readlink', 'listdir', 'getcwd')}
 
-ROOTS = ['root', 'r', 'static.d']
+ROOTS = ['root', 'r', 'static.d', 'r+t', 'ro[o]t']
+# a sibling directory whose name the root's name MATCHES when it is (mis)read as a pattern (regex / glob)
+TWINS = {'static.d': 'static-d', 'r+t': 'rrt', 'ro[o]t': 'root'}
 STORES = ['sess', 'sess2']
 W_FLAGS = os.O_WRONLY | os.O_RDWR | os.O_CREAT | os.O_TRUNC | os.O_APPEND
 
@@ -366,6 +368,10 @@ def tree_spec():
         f(rn + '-evil/secret.txt')
         d(rn + 'x')
         f(rn + 'x/secret.txt')
+    for tw in sorted(set(TWINS.values())):
+        if tw not in t:
+            d(tw)
+        f(tw + '/secret.txt')
     d('other')
     f('other/secret.txt')
     f('canary.txt')
